@@ -362,16 +362,17 @@ def compare_version_objects(version1, version2):
 
 def get_significant_numbers(string):
     """
-    Return a tuple of the numbers found in ``string``, without the trailing zeros
-    that are not significant when comparing versions.
+    Return a tuple of the numbers found in ``string`` as digits without leading
+    zeros, and without the trailing zero numbers that are not significant when
+    comparing versions.
 
     For example::
     >>> get_significant_numbers("1.05~rc1.0")
-    (1, 5, 1)
+    ('1', '5', '1')
     >>> get_significant_numbers("0")
     ()
     """
-    numbers = [int(digits) for digits in re.findall(r"[0-9]+", string or "")]
+    numbers = [digits.lstrip("0") for digits in re.findall(r"[0-9]+", string or "")]
     while numbers and not numbers[-1]:
         numbers.pop()
     return tuple(numbers)
